@@ -575,6 +575,17 @@ def check_mixed_arithmetic(rep: Report, prog: Program, resolver: Resolver, rid: 
 
 
 # ------------------------------------------------------------------ R03.3 gates
+def _pure_alias(st: Optional[ast.AST]) -> bool:
+    """`name = a.b.c`: a local alias of an attribute chain - no call, no subscript, nothing
+    that could convert or return; harmless ahead of the dimension gate (refAQ11)."""
+    if not (isinstance(st, ast.Assign) and len(st.targets) == 1 and isinstance(st.targets[0], ast.Name)):
+        return False
+    v = st.value
+    while isinstance(v, ast.Attribute):
+        v = v.value
+    return isinstance(v, ast.Name)
+
+
 def check_gates(rep: Report, prog: Program, rid: str) -> None:
     from .cfg import CFG
     # conversions.convert: the dimension test raising ConversionNotFound dominates everything
@@ -596,7 +607,8 @@ def check_gates(rep: Report, prog: Program, rid: str) -> None:
     else:
         others = [n for n in cfg.stmt_nodes() if n.nid != gate.nid and n.nid in cfg.reachable(cfg.entry)
                   and not _inside(n.ast, gate.ast)
-                  and not (isinstance(n.ast, ast.Expr) and isinstance(n.ast.value, ast.Constant))]
+                  and not (isinstance(n.ast, ast.Expr) and isinstance(n.ast.value, ast.Constant))
+                  and not _pure_alias(n.ast)]
         bad = [n for n in others if gate.nid not in dom.get(n.nid, set())]
         rep.check(rid, "conversions.convert:gate", not bad,
                   "a statement of convert() can execute before the dimension gate "
